@@ -119,6 +119,37 @@ func TestVerifC17Jar(t *testing.T) {
 	j := &jar{auth: mockAuth, keyResolver: mockKeyResolver}
 	now := time.Now()
 
+	tpOf := func(k jwk.Key) string {
+		if k == nil {
+			return ""
+		}
+		b, err := k.Thumbprint(crypto.SHA256)
+		if err != nil {
+			return ""
+		}
+		return hexOf(b[:8])
+	}
+	// the client's key set as (kid, thumbprint) entries in order, and the thumbprint of the key the DID resolver has for a kid: the
+	// model does LookupKeyID + compareThumbprint itself (the `clientkey` verdict below is kept for the oracle only)
+	descOf := func(s jwk.Set) []map[string]interface{} {
+		d := []map[string]interface{}{}
+		if s == nil {
+			return d
+		}
+		for i := 0; i < s.Len(); i++ {
+			k, _ := s.Key(i)
+			d = append(d, map[string]interface{}{"kid": k.KeyID(), "tp": tpOf(k)})
+		}
+		return d
+	}
+	resolvedTp := func(kid string) string {
+		if pk, ok := source[kid]; ok {
+			if jk, err := jwk.FromRaw(pk); err == nil {
+				return tpOf(jk)
+			}
+		}
+		return ""
+	}
 	setOf := func(kid string, key jwk.Key) jwk.Set {
 		s := jwk.NewSet()
 		if key != nil {
@@ -217,6 +248,8 @@ func TestVerifC17Jar(t *testing.T) {
 							}
 						}
 						vv["clientkey"] = match
+						vv["set"] = descOf(e.set)
+						vv["signertp"] = resolvedTp(signerKid)
 						res := "reject"
 						func() {
 							defer func() {
@@ -251,16 +284,6 @@ func TestVerifC17Jar(t *testing.T) {
 	// white-space variants of the kid, the signer's KEY under other kids, other parties' kids, random sets. Tokens: the client's own
 	// valid request, a request for the client's client_id signed by mallory under mallory's OWN kid (resolves through the DID
 	// resolver, published by nobody), and one signed by mallory under the client's kid.
-	tpOf := func(k jwk.Key) string {
-		if k == nil {
-			return ""
-		}
-		b, err := k.Thumbprint(crypto.SHA256)
-		if err != nil {
-			return ""
-		}
-		return hexOf(b[:8])
-	}
 	type ent struct {
 		kid string
 		key *tokenV2.VKey
